@@ -163,7 +163,8 @@ def signature(recipe: dict, plan: dict | None, rec: dict, viol: dict) -> dict:
         via_tofile = cfg.get("backend", "fd") == "fd" and damaged and all(kinds.get(n) in ("np", "np_view", "lazy", "packed") for n in damaged)
         # (torch / proto / bytesonly / ext tensors reach the file through Python-level write(): never silent)
         sig["writer"] = "numpy.tofile" if via_tofile else "python.write"
-        sig["damage"] = "final-partial-stdio-block" if viol.get("raw_confined") and damaged else "other"
+        sig["damage"] = ("final-partial-stdio-block" if viol.get("raw_confined") and damaged else
+                         "final-full-stdio-block" if viol.get("raw_confined_full") and damaged else "other")
     return sig
 
 
